@@ -151,6 +151,12 @@ func heapArr(h map[string]*Term, name string, s *Sort) *Term {
 	return Const(name, s) // the value at function entry
 }
 
+func registerArrSort(name string, s *Sort) {
+	if _, ok := arrSorts[name]; !ok {
+		arrSorts[name] = s
+	}
+}
+
 func (st *State) arr(name string, s *Sort) *Term { return heapArr(st.heap, name, s) }
 
 func (st *State) setArr(name string, t *Term) {
